@@ -116,3 +116,36 @@ def mc_design(ck, module, cfg, what, workers=4, timeout=1500, coverage=False, ex
                      f"the TLA+ model of the current tree ({module}, {cfg}) violates {r['violated']}: counterexample of {r['depth'] or len(tail)} states",
                      {"tlc": {"module": module, "cfg": cfg}, "counterexample_tail": r["raw_tail"][-1800:]})
     return r
+
+
+def apalache_inductive(ck, module, what, indinv="IndInv", props=(), timeout=900, obligations=None, cinit="ConstInit"):
+    """Unbounded check of a small model with Apalache: Init => IndInv (length 0), IndInv /\\ Next => IndInv' (length 1 from
+    IndInit), IndInv => each property (length 0 from IndInit).  A failed obligation is a design-level counterexample (the model
+    mirrors the tree), anything else a tool error."""
+    import shutil
+    import subprocess
+    import time
+    path = os.path.join(core.SPEC, "ap", module + ".tla")
+    out = os.path.join(core.WORK, "apalache", f"{module}.{os.getpid()}")
+    # `obligations` (a list of (Init predicate, invariant, length)) replaces the inductive scheme, e.g. for a one-step function
+    obligations = obligations or ([("Init", indinv, 0), ("IndInit", indinv, 1)] + [("IndInit", p, 0) for p in props])
+    t0 = time.time()
+    res = []
+    try:
+        for init, inv, length in obligations:
+            p = subprocess.run(["timeout", str(timeout), "apalache-mc", "check", f"--cinit={cinit}", f"--init={init}", f"--inv={inv}", f"--length={length}", f"--out-dir={out}", path],
+                               stdout=subprocess.PIPE, stderr=subprocess.STDOUT, text=True, cwd=os.path.dirname(path))
+            o = p.stdout or ""
+            if "The outcome is: NoError" in o and p.returncode == 0:
+                res.append({"init": init, "inv": inv, "length": length, "outcome": "NoError"})
+            elif "The outcome is: Error" in o:
+                res.append({"init": init, "inv": inv, "length": length, "outcome": "Error"})
+                ck.violation({"module": module, "tag": f"design:{inv}", "cfg": f"apalache {init} length {length}"},
+                             f"Apalache refutes the obligation {init} => {inv} (length {length}) of {module}: the model of the current tree does not keep {inv}",
+                             {"apalache": {"module": module, "init": init, "inv": inv, "length": length}, "output_tail": o[-1500:]})
+            else:
+                raise core.ToolError(f"apalache-mc failed on {module} ({init}, {inv}, {length}): rc={p.returncode}\n{o[-1500:]}")
+    finally:
+        shutil.rmtree(out, ignore_errors=True)
+    ck.cov.setdefault("apalache_runs", []).append({"module": module, "what": what, "obligations": res, "wall_s": round(time.time() - t0, 2)})
+    return res
